@@ -172,69 +172,6 @@ pub fn run(ctx: &mut Ctx) {
         }
     }
 
-    // ---- dense and sparse id sets, full sweep
-    ctx.space("terms/dense-and-sparse", "dense block 1..=2000; sparse sets id_k = (k*7919+1) mod 10^7 (5000 ids) and every 37th id up to 10^7 (270271 ids); full sweep of 0..10^7+10^4 plus borders, iteration and len");
-    let sets: Vec<(&str, Vec<u32>)> = vec![
-        ("dense 1..=2000", (1..=2000).collect()),
-        ("sparse k*7919+1 mod 10^7", (0..5000u32).map(|k| ((k as u64 * 7919 + 1) % MAX_ID as u64) as u32).collect()),
-        ("every 37th id", (0..MAX_ID).step_by(37).collect()),
-        ("top of the id space 9990000..10^7", (9_990_000..MAX_ID).collect()),
-    ];
-    for (name, ids) in &sets {
-        if !ctx.take() {
-            continue;
-        }
-        ctx.state();
-        ctx.nontrivial();
-        let seq: Vec<(u32, String)> = ids.iter().map(|i| (*i, format!("T{i}"))).collect();
-        let (f, added) = term_facts(&seq);
-        ctx.transitions(f.n_steps() + MAX_ID as u64);
-        match drive::build(&f, Mode::Minimal) {
-            Err(e) => ctx.violation("Builder::new_term", "construction fails", json!({"id_set": name, "observed": e})),
-            Ok(ont) => {
-                let r = guard(|| check_keys(&ont, &added, 0..MAX_ID + 10_000).or_else(|| check_keys(&ont, &added, borders.iter().copied())).or_else(|| check_iteration(&ont, &added)));
-                ctx.execs(MAX_ID as u64 + 10_000);
-                ctx.validateds(MAX_ID as u64 + 10_000);
-                match r {
-                    Ok(None) => {}
-                    Ok(Some((site, sig, det))) => ctx.violation(&site, &sig, json!({"id_set": name, "difference": det})),
-                    Err(p) => ctx.violation("Ontology::hpo", "panics", json!({"id_set": name, "observed": p})),
-                }
-            }
-        }
-        ctx.sample(|| json!({"id_set": name, "n_terms": ids.len()}));
-    }
-
-    // ---- the whole u32 key space on two ontologies (thorough)
-    if thorough {
-        ctx.space("terms/full-u32-sweep", "hpo(id) for every 32-bit id on the ontologies {1,118,9999999} and {0,2,9999998}; one case per 2^24 keys");
-        for ids in [vec![1u32, 118, 9_999_999], vec![0u32, 2, 9_999_998]] {
-            let seq: Vec<(u32, String)> = ids.iter().map(|i| (*i, format!("T{i}"))).collect();
-            let (f, added) = term_facts(&seq);
-            let mut ont: Option<Ontology> = None;
-            for chunk in 0..256u32 {
-                if !ctx.take() {
-                    continue;
-                }
-                ctx.state();
-                if ont.is_none() {
-                    ont = Some(drive::build(&f, Mode::Minimal).expect("build"));
-                }
-                let lo = chunk << 24;
-                let hi = lo | 0x00ff_ffff;
-                ctx.transitions(1 << 24);
-                ctx.execs(1 << 24);
-                ctx.validateds(1 << 24);
-                match guard(|| check_keys(ont.as_ref().unwrap(), &added, lo..=hi)) {
-                    Ok(None) => {}
-                    Ok(Some((site, sig, det))) => ctx.violation(&site, &sig, json!({"term_ids_added": ids, "difference": det})),
-                    Err(p) => ctx.violation("Ontology::hpo", "panics", json!({"term_ids_added": ids, "observed": p})),
-                }
-                ctx.sample(|| json!({"term_ids_added": ids, "keys": [lo, hi]}));
-            }
-        }
-    }
-
     // ---- ontologies built by the binary decoder and the text loader (names incl. the empty one, every record order)
     {
         let family = crate::props::common::format_family(4, if thorough { 1 } else { 8 });
@@ -416,4 +353,68 @@ pub fn run(ctx: &mut Ctx) {
         ctx.outcome(si as u64);
         ctx.sample(|| json!({"genes": genes, "omim": omim, "orpha": orpha, "queries": queries.len()}));
     }
+    // ---- dense and sparse id sets, full sweep
+    ctx.space("terms/dense-and-sparse", "dense block 1..=2000; sparse sets id_k = (k*7919+1) mod 10^7 (5000 ids) and every 37th id up to 10^7 (270271 ids); full sweep of 0..10^7+10^4 plus borders, iteration and len");
+    let sets: Vec<(&str, Vec<u32>)> = vec![
+        ("dense 1..=2000", (1..=2000).collect()),
+        ("sparse k*7919+1 mod 10^7", (0..5000u32).map(|k| ((k as u64 * 7919 + 1) % MAX_ID as u64) as u32).collect()),
+        ("every 37th id", (0..MAX_ID).step_by(37).collect()),
+        ("top of the id space 9990000..10^7", (9_990_000..MAX_ID).collect()),
+    ];
+    for (name, ids) in &sets {
+        if !ctx.take() {
+            continue;
+        }
+        ctx.state();
+        ctx.nontrivial();
+        let seq: Vec<(u32, String)> = ids.iter().map(|i| (*i, format!("T{i}"))).collect();
+        let (f, added) = term_facts(&seq);
+        ctx.transitions(f.n_steps() + MAX_ID as u64);
+        match drive::build(&f, Mode::Minimal) {
+            Err(e) => ctx.violation("Builder::new_term", "construction fails", json!({"id_set": name, "observed": e})),
+            Ok(ont) => {
+                let r = guard(|| check_keys(&ont, &added, 0..MAX_ID + 10_000).or_else(|| check_keys(&ont, &added, borders.iter().copied())).or_else(|| check_iteration(&ont, &added)));
+                ctx.execs(MAX_ID as u64 + 10_000);
+                ctx.validateds(MAX_ID as u64 + 10_000);
+                match r {
+                    Ok(None) => {}
+                    Ok(Some((site, sig, det))) => ctx.violation(&site, &sig, json!({"id_set": name, "difference": det})),
+                    Err(p) => ctx.violation("Ontology::hpo", "panics", json!({"id_set": name, "observed": p})),
+                }
+            }
+        }
+        ctx.sample(|| json!({"id_set": name, "n_terms": ids.len()}));
+        crate::ctx::trim_heap();
+    }
+
+    // ---- the whole u32 key space on two ontologies (thorough)
+    if thorough {
+        ctx.space("terms/full-u32-sweep", "hpo(id) for every 32-bit id on the ontologies {1,118,9999999} and {0,2,9999998}; one case per 2^24 keys");
+        for ids in [vec![1u32, 118, 9_999_999], vec![0u32, 2, 9_999_998]] {
+            let seq: Vec<(u32, String)> = ids.iter().map(|i| (*i, format!("T{i}"))).collect();
+            let (f, added) = term_facts(&seq);
+            let mut ont: Option<Ontology> = None;
+            for chunk in 0..256u32 {
+                if !ctx.take() {
+                    continue;
+                }
+                ctx.state();
+                if ont.is_none() {
+                    ont = Some(drive::build(&f, Mode::Minimal).expect("build"));
+                }
+                let lo = chunk << 24;
+                let hi = lo | 0x00ff_ffff;
+                ctx.transitions(1 << 24);
+                ctx.execs(1 << 24);
+                ctx.validateds(1 << 24);
+                match guard(|| check_keys(ont.as_ref().unwrap(), &added, lo..=hi)) {
+                    Ok(None) => {}
+                    Ok(Some((site, sig, det))) => ctx.violation(&site, &sig, json!({"term_ids_added": ids, "difference": det})),
+                    Err(p) => ctx.violation("Ontology::hpo", "panics", json!({"term_ids_added": ids, "observed": p})),
+                }
+                ctx.sample(|| json!({"term_ids_added": ids, "keys": [lo, hi]}));
+            }
+        }
+    }
+
 }
